@@ -128,13 +128,41 @@ def depth(t):
     return 1 + depth(t[-1])
 
 
+EXT_NAMES = {"0": "zero", "1": "one", "2": "two", "3": "three", "0.5": "half"}
+_LIT = None
+
+
+def externalise(s):
+    """the same expression with its literals handed over as EXTERNAL values: (text with names, {name: value})"""
+    global _LIT
+    import re
+    if _LIT is None:
+        _LIT = re.compile(r"(?<![\w.])(0\.5|[0-3])(?![\w.])")
+    used = {}
+
+    def sub(m):
+        used[EXT_NAMES[m.group(1)]] = float(m.group(1))
+        return EXT_NAMES[m.group(1)]
+    return _LIT.sub(sub, s), used
+
+
 def run_expr(k, s, vals, variant):
     """One evaluation on environment k; returns None or a description of the deviation."""
     t = env_track(k)
     pre = snap(t)
     undef = has_undef(vals)
     try:
-        if variant == "pure":
+        if variant == "external":
+            s2, ext = externalise(s)
+            if not ext:
+                return None
+            try:                       # history: the same text was evaluated before, elsewhere, with OTHER external values
+                env_track(k).operate(s2, {n: v * 3.0 - 7.0 for n, v in ext.items()})
+            except (Exception, SystemExit):
+                pass
+            r = t.operate(s2, ext)
+            variant = "pure"
+        elif variant == "pure":
             r = t.operate(s)
         elif variant == "bracket":
             r = t[s]
@@ -240,7 +268,7 @@ def replay(cases):
             for style, s in strings:
                 if style == "fcall" and "{" not in c["s"]:
                     continue
-                vs = ["pure", VARIANTS[(h + k) % len(VARIANTS)]]
+                vs = ["pure", VARIANTS[(h + k) % len(VARIANTS)]] + (["external"] if (h + 2 * k) % 3 == 0 and style == "min" else [])
                 for v in vs:
                     if v == "bracket" and not any(ch in s for ch in "+-*/^"):
                         continue
